@@ -326,7 +326,7 @@ def checksummed_strings(rng, net, nm, tier):
                 yield _b58enc(d), "pre=%s body=%d" % (pre.hex(), len(b))
 
 
-def valid_texts(rng, net):
+def valid_texts(rng, net, lean=False):
     """texts of real objects on this network (addresses, WIFs, extended keys, segwit)"""
     out = []
     A = net.address
@@ -341,14 +341,14 @@ def valid_texts(rng, net):
             out.append(t)
     if is_disabled(net):
         return out
-    for se in (1, N_ - 1, rng.randrange(1, N_)):
-        for c in (True, False):
-            k = net.keys.private(se, is_compressed=c)
-            if net.parse._wif_prefix is not None:
-                out.append(k.wif())
+    for se, c in (((N_ - 1, True), (rng.randrange(1, N_), False)) if lean else
+                  ((1, True), (1, False), (N_ - 1, True), (N_ - 1, False), (rng.randrange(1, N_), True), (rng.randrange(1, N_), False))):
+        k = net.keys.private(se, is_compressed=c)
+        if net.parse._wif_prefix is not None:
+            out.append(k.wif())
     node = net.keys.bip32_seed(bytes(rng.getrandbits(8) for _ in range(16)))
     sub = node.subkey_for_path("0H/%d" % rng.randrange(1000))
-    for nd in (node, sub):
+    for nd in ((sub,) if lean else (node, sub)):
         if net.parse._bip32_prv_prefix is not None:
             out.append(nd.hwif(as_private=True))
             out.append(nd.hwif(as_private=False))
@@ -485,10 +485,30 @@ def unicode_texts(rng, k):
     return out
 
 
+FAMILY_ENTRIES = {
+    "colon": ["bip32_seed", "hd_seed", "electrum_prv", "electrum_pub", "electrum_seed", "hierarchical_key", "secret", "__call__"],
+    "numeric": ["secret_exponent", "private_key", "secret", "script", "__call__"],
+    "pair": ["public_pair", "public_key"],
+    "sec": ["sec", "public_key", "script"],
+    "script": ["script", "payable", "__call__"],
+    "unicode": ["__call__", "public_key"],
+    "segwit": ["p2pkh_segwit", "p2sh_segwit", "p2tr", "address", "payable", "__call__"],
+}
+
+
 def generic_texts(rng, net, tier):
-    k = 60 if tier == "quick" else 600
-    t = colon_texts(rng) + numeric_texts(rng) + pair_texts(rng) + sec_texts(rng, net) + script_texts(rng) + unicode_texts(rng, k)
-    return t
+    """[(family, text)]"""
+    k = 40 if tier == "quick" else 600
+    return ([("colon", t) for t in colon_texts(rng)] + [("numeric", t) for t in numeric_texts(rng)]
+            + [("pair", t) for t in pair_texts(rng)] + [("sec", t) for t in sec_texts(rng, net)]
+            + [("script", t) for t in script_texts(rng)] + [("unicode", t) for t in unicode_texts(rng, k)]
+            + [("segwit", t) for t in segwit_texts(rng, net)])
+
+
+def entries_for_generic(rng, fam, all_entries, extra):
+    if all_entries:
+        return ENTRIES
+    return list(dict.fromkeys(FAMILY_ENTRIES[fam] + rng.sample(ENTRIES, extra)))
 
 
 # ---------------------------------------------------------------------------------------------------------------
@@ -522,20 +542,17 @@ def model_cases(rng, tier):
         es = entries_for_checksummed(net, nm, full)
         pres = net_prefixes(net)
         for s, _ in checksummed_strings(rng, net, nm, tier):
-            if tier == "thorough":
-                use = es
-            else:
-                # the kinds whose prefix the payload carries, two other entry points, and sometimes a catch-all parser
-                d = _b58dec(s)
-                use = [e for e, pre in pres.items() if d.startswith(pre)] + rng.sample(es, 2 if full else 1)
-                if rng.random() < 0.3:
-                    use.append(rng.choice(["address", "private_key", "hierarchical_key", "secret", "__call__"]))
+            # the kinds whose prefix the payload carries, some other entry points, and sometimes a catch-all parser
+            d = _b58dec(s)
+            use = [e for e, pre in pres.items() if d.startswith(pre)] + rng.sample(es, 3 if tier == "thorough" else 2 if full else 1)
+            if rng.random() < (0.5 if tier == "thorough" else 0.3):
+                use.append(rng.choice(["address", "private_key", "hierarchical_key", "secret", "__call__"]))
             for e in dict.fromkeys(use):
                 yield mk_case(ni, e, s)
     # B. texts of real objects, their mutations, and the serialiser models
     for nm, net in NETS:
         ni = NET_INDEX[nm]
-        vt = valid_texts(rng, net)
+        vt = valid_texts(rng, net, lean=(tier == "quick" and nm not in ("btc", "polis", "xtn")))
         es_all = ENTRIES
         for s in vt:
             for e in (es_all if nm in ("btc", "polis") or tier == "thorough" else
@@ -553,15 +570,20 @@ def model_cases(rng, tier):
                     yield mk_case(ni, e, m)
         # another network's texts on this network
         other = NETS[rng.randrange(len(NETS))][1]
-        for s in valid_texts(rng, other)[:6]:
+        for s in valid_texts(rng, other, lean=True)[:8]:
             for e in ("address", "wif", "bip32"):
                 yield mk_case(ni, e, s)
     # C. everything else, every entry point
+    base = ("btc", "polis", "xtn", "ltc", "dcr", "grs")
     for nm in pick_nets(rng, tier, 2):
         net = NETS[NET_INDEX[nm]][1]
         ni = NET_INDEX[nm]
-        for s in generic_texts(rng, net, tier) + segwit_texts(rng, net):
-            for e in (ENTRIES if nm == "btc" or tier == "thorough" else rng.sample(ENTRIES, 5)):
+        for fam, s in generic_texts(rng, net, tier):
+            if tier == "thorough":
+                es = ENTRIES if nm in base else entries_for_generic(rng, fam, False, 1)
+            else:
+                es = entries_for_generic(rng, fam, False, 3) if nm == "btc" else rng.sample(ENTRIES, 3)
+            for e in es:
                 yield mk_case(ni, e, s)
     # D. electrum seeds (100000 SHA-256 rounds each: rationed)
     for s in electrum_seed_texts(rng, 3 if tier == "quick" else 25):
@@ -844,7 +866,7 @@ def prop_cases(rng, tier):
                 continue
             seen.add(d)
             yield _pc("refuse", nm, payload=d.hex())
-            if rng.random() < (0.04 if not thorough else 0.5):
+            if rng.random() < (0.04 if not thorough else 0.1):
                 for e in ("hierarchical_key", "private_key", "address", "secret", "__call__"):
                     yield from text_checks(nm, e, s)
         for which in B58_KIND_ENTRIES:
@@ -853,7 +875,7 @@ def prop_cases(rng, tier):
     # valid texts and mutations
     wide = set(FULL_SWEEP + ["xtn", "grs"]) | set(rng.sample([nm for nm, _ in NETS], 3))
     for nm, net in NETS:
-        for s in valid_texts(rng, net) + segwit_texts(rng, net)[:6]:
+        for s in valid_texts(rng, net, lean=not (thorough or nm in wide)) + segwit_texts(rng, net)[:6]:
             for e in (ENTRIES if thorough or nm in wide else
                       ["address", "payable", "private_key", "hierarchical_key", "secret", "__call__"] + rng.sample(ENTRIES, 3)):
                 if e == "electrum_seed":
@@ -866,8 +888,12 @@ def prop_cases(rng, tier):
     # everything else on every entry point
     for nm in pick_nets(rng, tier, 2):
         net = NETS[NET_INDEX[nm]][1]
-        for s in generic_texts(rng, net, tier) + segwit_texts(rng, net):
-            for e in (ENTRIES + UNSUPPORTED[1:] if thorough or nm == "btc" else rng.sample(ENTRIES, 3)):
+        for fam, s in generic_texts(rng, net, tier):
+            if thorough:
+                es = ENTRIES + UNSUPPORTED[1:] if nm in ("btc", "polis", "xtn", "ltc", "dcr", "grs") else rng.sample(ENTRIES, 3)
+            else:
+                es = entries_for_generic(rng, fam, False, 4) if nm == "btc" else rng.sample(ENTRIES, 3)
+            for e in es:
                 yield from text_checks(nm, e, s)
     for s in electrum_seed_texts(rng, 2 if not thorough else 20):
         for e in ("electrum_seed", "hierarchical_key"):
